@@ -54,6 +54,12 @@ void mock_reset(void)
 static enum DeviceStatusCode cam_set(struct Camera* c, struct CameraProperties* s)
 {
     struct MockCam* m = (struct MockCam*)c;
+    if (mock_cam[m->idx].reject_sets > 0) {
+        /* a setting the device refuses (like a binning that is not a power of two): nothing changes */
+        mock_cam[m->idx].reject_sets--;
+        printf("D cam%d#%d set REJECTED\n", m->idx, m->serial);
+        return Device_Err;
+    }
     m->props = *s;
     printf("D cam%d#%d set\n", m->idx, m->serial);
     return Device_Ok;
